@@ -796,7 +796,7 @@ def site_programs() -> list[tuple[list[tuple], dict[str, Any]]]:
     for p in (P("d", P("m")), P("l", P("m")), P("m", P("n")), P("m", "a", "b"), P("d", "nope", "x"), P("l", 7, "x"),
               P("d", "p", "q"), P("ld", 0, "zz"), P("ld", 5, "a"), P("s", 9), P("s", "first"), P("d", "first"), P("d", "last"),
               P("el", "first"), P("el", "last"), P("n", "first"), P("z", "size"), P("l", "0"),
-              P("now"), P("forloop")):
+              P("forloop")):
         progs.append([("out", p)])
         progs.append([("out", ("filter", p, "default", [L("D")], []))])
     data = dict(BASE)
@@ -1111,9 +1111,9 @@ def main(chk: C.Check, build: C.Build) -> None:
     if not thorough:
         site = [x for x in site if r.random() < 0.07]
     for prog, data in site:
-        for sub, d in deletions(prog, data, r, 3 if thorough else 2, 2):
+        for sub, d in deletions(prog, data, r, 2, 2):
             cases.append((prog, d, sub, False))
-    nprog = 800 if thorough else 100
+    nprog = 600 if thorough else 100
     for i in range(nprog):
         prog = gen_block(r, [], depth=3 if thorough else 2, n=r.choice([1, 2, 2, 3]))
         dels = deletions(prog, BASE, r, 4, 12 if thorough else 3)
@@ -1183,7 +1183,7 @@ def main(chk: C.Check, build: C.Build) -> None:
     # 2. kernel-level tie
     kitems = dunder_cases()
     kall = kernel_cases(r, thorough)
-    kitems += kall if thorough else [k for k in kall if r.random() < 0.12]
+    kitems += [k for k in kall if r.random() < (0.55 if thorough else 0.12)]
 
     # 3. oracle beyond the model
     nbeyond = 0
@@ -1223,7 +1223,7 @@ def main(chk: C.Check, build: C.Build) -> None:
                  "left value x argument, each comparison operator x operand pair, truthiness / ternary / case / for iterable / for limit / "
                  "assign / capture / nested path segment) plus seeded random programs (depth <= "
                  f"{3 if thorough else 2}); for each, the base data and the data with every subset of the resolvable references deleted "
-                 f"(exhaustive for <= 4 references in random programs, <= {3 if thorough else 2} in site programs, seeded beyond); each pair rendered under Undefined, "
+                 f"(exhaustive for <= 4 references in random programs, <= 2 in site programs, seeded beyond); each pair rendered under Undefined, "
                  "StrictUndefined, FalsyStrictUndefined and the probe. non-trivial = the probe saw a failed lookup (some policy had to handle an undefined)"),
         "samples": samples,
         "distribution": dist,
